@@ -10,7 +10,7 @@ CLAIMED = {
          "encoding/json and encoding/xml plumbing (harness only)"),
  "C07": ("trichotomy for all stored values; order = day-number order, exact Sub/DaysBetween with saturation, Add/AddDuration/FromTime land on the day number the calendar dictates, Time round trip — over a calendar model proved to be a monotone bijection (civil∘ordinal = id, ordinal∘civil = id)",
          "that Go's time package implements that calendar (correspondence on grids); float arithmetic in DaysBetween"),
- "C08": ("units_are_powers (generated unit table = the spec's multipliers), newSize_exact / newSize_refused_iff / never_wraps, New[N] for ints and exact floats (finToNat_exact, accepted/refused), the text grammar as an independent `render` spec with completeness (text_exact), separators_irrelevant, full soundness (text_sound) and text_invalid_iff, Bytes[N] for the ten integer kinds and float representability (roundToBits p s = s ⇔ ∃ m e, m < 2^p ∧ s = m·2^e)",
+ "C08": ("units_are_powers (generated unit table = the spec's multipliers), newSize_exact / newSize_refused_iff / newSize_never_wraps, New[N] for ints and exact floats (finToNat_exact, accepted/refused), the text grammar as an independent `render` spec with completeness (text_exact), separators_irrelevant, full soundness (text_sound) and text_invalid_iff, Bytes[N] for the ten integer kinds and float representability (roundToBits p s = s ⇔ ∃ m e, m < 2^p ∧ s = m·2^e)",
          "float conversions uint64(f) for f ≥ 2^64/NaN/Inf (amd64 result 2^63, platform fact), reflection on Kind, derived numeric types — exercised by the harness"),
  "C09": ("accepts_iff: acceptance ⇔ grammar ∧ limit ∧ rule ∧ calendar validity; components; error classes",
          "Go regexp (modelled by a hand scanner, validated exhaustively to length 8–9 over the alphabet)"),
@@ -21,7 +21,7 @@ CLAIMED = {
  "C03": ("the published BNF as an independent predicate; shape_iff / accepts_iff (acceptance ⇔ non-empty ∧ limit ∧ prefix rule ∧ BNF ∧ numbers < 2^64), unique decomposition, fields, reproduce (format ∘ parse = id byte for byte), overflow_typed, invalid_iff, error classes, never_panic, entry points and their generated constants, valid_iff_roundtrip under the (forced, explicit) length hypothesis",
          "Go regexp (modelled by the scanner; exhaustive to length 6/8 over the alphabet in the harness); the zero result next to an error (asserted by the harness on every parse op)"),
  "C04": ("text_roundtrip, json_roundtrip (object, string and number forms through the modelled encoding/json tokenizer), string_roundtrip, pretty_roundtrip for every s < 2^64 and all 8 switch settings under the generated default rules/limits (and any limit the output fits, any MaxObjectKeys that is 0 or ≥ 2); marshal_length_le (every output ≤ 43 bytes ≤ default limit)",
-         "nesting in encoding/json containers (struct fields, slices, maps) — real encoding/json, harness only; the tokenizer model itself is validated by correspondence (json.tokens lines)"),
+         "nesting in encoding/json containers (struct fields, slices, maps) — real encoding/json, harness only; the tokenizer model itself is validated by correspondence on the json.tokens lines of C12's check (also run by C18's)"),
  "C05": ("layout (length 36/45, hyphens, every digit position holds the lower-case hex digit of the big-endian nibble), roundtrip incl. upper-case digits and every casing of `urn`, accepts_iff (the exact acceptance set), strict (accepted ⇒ normalised text = canonical text), the error theorems (too_long, bad_length, urn_disabled, bad_prefix, bad_hyphen, bad_digit with the offending byte, error_classes), never_panic, version_field / variant_field as nibbles 12 and 16 of the text; starts_shape and the other generated constants — all kernel-only (no bv_decide)",
          "fmt's %0Nx (modelled by padHex, validated by correspondence); the zero ID next to an error (asserted by every uu.parse op)"),
  "C06": ("compare_is_spec: the comparator equals an independent statement of SemVer §11 on all versions outside the excluded region (validity not needed); the excluded region is exactly the property's; the specification's example chain in both spec and model; entry points = parse then compare",
@@ -29,7 +29,7 @@ CLAIMED = {
  "C10": ("accepts_iff: acceptance ⇔ limit ∧ (empty ∧ rule) ∨ upper-cased text = M^k ++ three group forms, value = sum mod 2^64 (no mod needed below 2^54 bytes); case_invariant; valid_iff_parse; error classes; no panic",
          "Go regexp incl. (?i) Unicode folding (modelled by a hand scanner; 256-value foreign-byte and look-alike rune sweeps in the harness)"),
  "C12": ("tokenizer state lemmas (string key guaranteed, stack discipline, skip of unknown values of any nesting restores the state), no_panic, gating of the three forms, number/string forms = text rules, single_value (the whole input is consumed; trailing data rejected), the abstract object semantics evalMembers with accepts_iff_denotes, order_independent (+ rejection preserved), defects, too_many_members (0 = no maximum), unknown members inserted/deleted without effect, and the refinement object_loop_refinement / object_refinement: the token-level loop on rendered JSON (nested arrays/objects included) equals evalMembers",
-         "the encoding/json decoder itself (transliterated model, validated on >1M token streams incl. invalid UTF-8, surrogates, truncations); well-formedness against an independent JSON grammar (oracle: json.Valid + generic decoding on the implementation); the refinement covers compact rendering with plain ASCII keys/strings and integer literals"),
+         "the encoding/json decoder itself (transliterated model, validated by this check's json.tokens lines: every distinct generated document, about 42k token streams in the quick tier and more in the thorough tier, incl. invalid UTF-8, surrogates, truncations); well-formedness against an independent JSON grammar (oracle: json.Valid + generic decoding on the implementation); the refinement covers compact rendering with plain ASCII keys/strings and integer literals"),
  "C13": ("shorten_exact_maximal (value·1024^k = size, unit is the k-th binary unit, no larger unit divides, zero ↦ 0 B; mask/shift/unit list generated), plain and pretty renderings characterised digit by digit (a separator after exactly the digits with a multiple of three digits to their right, one before the unit, nothing else)",
          "—"),
  "C14": ("range, reflexivity, antisymmetry, build-irrelevance, equal-core-pre ⇒ 0, latest_choice for ALL versions (arbitrary field bytes), string helpers = parse-then-compare with the documented error precedence, Next* plain release strictly above, panic ⇔ 2^64−1",
@@ -78,7 +78,7 @@ m = {
     "engines": [{"name": "lean4-model+correspondence", "path": "/verif/lean", "serves_properties": sorted(CLAIMED),
                  "kind_free_text": "Lean 4 model + theorems (lake), fact extractor (Go, go/parser), Go harness (correspondence + direct oracles), Python orchestrator bin/check"}],
     "checks": checks,
-    "notes": "See DESIGN.md. Fix commits F1–F8 in /repo are recorded in known_findings.json as fixed:. Properties not yet claimed are listed under not_applicable with the reason.",
+    "notes": "See DESIGN.md. All twenty properties are claimed (not_applicable is empty). The eight fix commits F1–F8 in /repo are recorded in known_findings.json as ten entries of kind fixed (they suppress nothing); K1 (C20) is the one known finding. EXTRA (DESIGN.md §9.5) is not a property and is deliberately not registered here.",
     "not_applicable": [{"property_id": p["id"], "reason": "check not built yet in this revision (planned at proof level, DESIGN.md §4)"} for p in props if p["id"] not in CLAIMED],
 }
 json.dump(m, open(os.path.join(V, "MANIFEST.json"), "w"), indent=1)
